@@ -77,9 +77,10 @@ def opcode(name, setname):
     table = getattr(ec, setname)
     attr = REG[name][2]
     if attr.startswith("#"):
-        for op in conv.get_opcode(table, attr[1:]):
-            return op
-        return None
+        # the entry the standard's code belongs to in this set, by its name (not through the library's
+        # own lookup helper, which is part of what is being checked)
+        generic = "%s_OPCODE_%s" % (setname.upper(), attr[1:])
+        return getattr(table, generic) if generic in table.keys else None
     if attr in table.keys:
         return getattr(table, attr)
     return None
@@ -158,8 +159,12 @@ def construct(name, setname, a, phase, data="auto"):
         bs = kw.get("blocksize", 0)
         if phase == "out_data":
             n = bs * kw.get("tl", 0)
+        elif kw.get("ndob"):
+            # NDOB = 1: the CDB announces no data-out buffer whatever the caller hands over; callers do
+            # pass their block anyway (the repository's own test does), so both variants are exercised
+            n = bs if (kw.get("lba", 0) + kw.get("nb", 0)) % 2 == 0 else 0
         else:
-            n = 0 if kw.get("ndob") else bs
+            n = bs
         passed = pattern(n, salt=len(kw))
         kw["data"] = passed
     elif phase == "ata" and "#datalen" in a:
@@ -183,7 +188,7 @@ def event(name, setname, a, phase, cmd, exc, passed):
         e["cdb"] = list(cmd.cdb) if isinstance(cmd.cdb, (bytes, bytearray)) else []
         e["dinlen"] = len(di) if isinstance(di, (bytes, bytearray)) else 0
         e["doutlen"] = len(do) if isinstance(do, (bytes, bytearray)) else 0
-        if passed is not None and isinstance(do, (bytes, bytearray)):
+        if passed is not None and isinstance(do, (bytes, bytearray)) and not a.get("ndob"):
             e["dout_same"] = bytes(do) == bytes(passed)
     return e
 
